@@ -151,9 +151,71 @@ fn cli_duplicates_and_names(ctx: &Ctx) {
     }
 }
 
+/// An encoded public key whose 4-byte checksum does not match must not be usable in ANY role through the
+/// real binary: not as recipient, not as sender, and not to put a name on the sender of a file.
+fn cli_checksum_in_every_role(ctx: &Ctx) {
+    let mut rng = Rng::fork(ctx.seed, "C17-cli-checksum");
+    let n = ctx.tier.pick(6, 48);
+    for i in 0..n {
+        let wd = WorkDir::new("c17k");
+        let alice = crate::cli::Ident::new("alice", "apw", &mut rng);
+        let bob = crate::cli::Ident::new("bob", "bpw", &mut rng);
+        let pt = rng.bytes(100);
+        let file = refspec::encode_key_file(&alice.sk, &alice.pk, &bob.pk, &rng.arr32(), &rng.arr32(), &pt, &[100]).unwrap();
+        wd.write("c.ktl", &file);
+        wd.write("p.bin", &pt);
+        // corrupt alice's encoding: the 36-byte blob with one checksum byte changed (canonical base64 again),
+        // or one of the last characters of the text replaced by another alphabet character
+        let mut blob = crate::util::unb64(&alice.encoded_pk).unwrap();
+        let bad_pk = if i % 2 == 0 {
+            blob[32 + i / 2 % 4] ^= 1 << (i % 8);
+            crate::util::b64(&blob)
+        } else {
+            let mut t: Vec<u8> = alice.encoded_pk.clone().into_bytes();
+            let at = 43 + (i / 2) % 5;
+            t[at] = if t[at] == b'A' { b'B' } else { b'A' };
+            String::from_utf8(t).unwrap()
+        };
+        if crate::util::unb64(&bad_pk).map(|b| b.len() == 36 && refspec::decode_pk(&bad_pk).is_none() && b[..32] == alice.pk).unwrap_or(false) == false {
+            // the edit did not produce "same key bytes, other checksum" (e.g. it fell on padding bits): skip
+            continue;
+        }
+        let kr = format!("{}\n[Key]\nName = alice\nPublicKey = {}\nPrivateKey = {}\n", bob.entry(true), bad_pk, alice.locked);
+        wd.write("kr.txt", kr.as_bytes());
+        let case = |what: &str, o: &crate::cli::Output| json!({"role": what, "corrupted_public_key": bad_pk, "correct_public_key": alice.encoded_pk, "exit": o.exit.describe(), "stderr": o.stderr_s()});
+        // naming the sender
+        let o = Cmd::new(&wd.path, &["decrypt", "c.ktl", "-t", "bob", "-k", "kr.txt", "--env-pass"]).pass("bpw").run();
+        ctx.eval();
+        if o.exit == Exit::Timeout {
+            ctx.inconclusive("C17 cli: timeout");
+            continue;
+        }
+        if o.stderr_s().contains("File from: alice") || (o.exit == Exit::Code(0) && !o.stderr_s().to_lowercase().contains("unknown")) {
+            ctx.violation("C17:cli:sender-named-through-an-entry-whose-checksum-does-not-match", case("naming the sender of a decrypted file", &o));
+            continue;
+        }
+        // as recipient and as sender
+        let e1 = Cmd::new(&wd.path, &["encrypt", "p.bin", "-t", "alice", "-f", "bob", "-o", "e1.ktl", "-k", "kr.txt", "--env-pass"]).pass("bpw").run();
+        let e2 = Cmd::new(&wd.path, &["encrypt", "p.bin", "-t", "bob", "-f", "alice", "-o", "e2.ktl", "-k", "kr.txt", "--env-pass"]).pass("apw").run();
+        ctx.eval();
+        if e1.exit == Exit::Code(0) || wd.file("e1.ktl").exists() {
+            ctx.violation("C17:cli:encrypted-to-a-key-whose-checksum-does-not-match", case("recipient", &e1));
+            continue;
+        }
+        if e2.exit == Exit::Code(0) || wd.file("e2.ktl").exists() {
+            ctx.violation("C17:cli:signed-as-a-key-whose-checksum-does-not-match", case("sender", &e2));
+            continue;
+        }
+        ctx.seen("cli: entry with a non-matching checksum is unusable as recipient, as sender and for naming a sender");
+        ctx.distinct(&format!("cli-checksum|{}|{}", i, bad_pk));
+    }
+}
+
 pub fn cli_lanes(ctx: &Ctx) {
     cli_large_keyrings(ctx);
     cli_duplicates_and_names(ctx);
+    cli_checksum_in_every_role(ctx);
+    ctx.require("cli: entry with a non-matching checksum is unusable", 3);
     ctx.require("cli: keyring with a repeated name or key is refused", 3);
     ctx.require("cli: a name written by key generate selects exactly its own key", 4);
 }
